@@ -3,7 +3,7 @@
 name="$1"; id="$2"; tier="${3:-quick}"
 cd /verif
 if [ -n "$(git -C /repo status --porcelain)" ]; then echo "/repo not clean"; exit 2; fi
-git -C /repo apply "/verif/seeded/$name/patch.diff" || git -C /repo apply --3way "/verif/seeded/$name/patch.diff" || { echo "patch does not apply"; exit 2; }
+git -C /repo apply "/verif/seeded/$name/patch.diff" || git -C /repo apply --3way "/verif/seeded/$name/patch.diff" || { git -C /repo reset -q --hard HEAD; echo "patch does not apply"; exit 2; }
 git -C /repo reset -q
 ./check "$id" "$tier" > /tmp/try-$name-$id.log 2>&1; rc=$?
 git -C /repo checkout -- . ; git -C /repo clean -fdq -- pkg devpkg 2>/dev/null
